@@ -115,7 +115,9 @@ def run(ctx):
         ('cv_grid', dict(mode='cv', nobs=4, nch=2, nlab=2, nfold=2, vals='Vals01', methods=BOTH, rms=(False, True),
                          priorids=(1, 2), foldsrcs=('explicit', 'default'), emitmod=1 if thorough else 3), 0),
         ('cv_cat6', dict(mode='cv', nobs=6, nch=2, nlab=3, nfold=3, datasrc='cat', dataids=(1, 2) if thorough else (2,),
-                         methods=BOTH, rms=(False, True), precids=(0, 1), fprecids=(0, 1), priorids=(1,),
+                         # precision 2 has unequal row sums: (1,..,1) is not an eigenvector, so centring only one
+                         # side of the bilinear form is visible
+                         methods=BOTH, rms=(False, True), precids=(0, 2), fprecids=(0, 1), priorids=(1,),
                          foldsrcs=('explicit', 'default'), emitmod=2 if thorough else 4, invs=NOCOEF), 30),
         ('cv_perm', dict(mode='cv', nobs=4, nch=2, nlab=2, nfold=3, datasrc='cat', dataids=(3,),
                          methods=BOTH, rms=(False, True), precids=(0, 2) if thorough else (0,), fprecids=(0, 2),
@@ -142,9 +144,9 @@ def run(ctx):
     first = True
     # vacuity guard: every action of the cv pipeline and every transformation is taken (TLC -coverage on a
     # tiny configuration: coverage output of long runs is too large to parse)
-    r = ctx.tlc('MC_CalcRdm', C.cfg(mode='cv', nobs=4, nch=2, nlab=2, nfold=2, datasrc='cat', dataids=(3,),
+    r = ctx.tlc('MC_CalcRdm', C.cfg(mode='cv', nobs=2, nch=2, nlab=1, nfold=2, datasrc='cat', dataids=(3,),
                                     methods=('crossnobis',), fprecids=(0, 2), foldsrcs=('explicit', 'default'),
-                                    permlevel=1, emit=False), name='cv_cov', workers=4, coverage=True, timeout=900)
+                                    permlevel=1, emit=False), name='cv_cov', workers=1, coverage=True, timeout=900)
     ctx.require_coverage(r, ['DefaultFolds', 'ExplicitFolds', 'SortByCond', 'FoldMeans', 'PairProducts',
                              'AverageFoldPairs', 'BuildCv', 'PermuteRows', 'RelabelFolds', 'PermuteChannels'])
     for name, kw, nfloat in runs:
@@ -181,5 +183,8 @@ def run(ctx):
         nd += coef_replay(ctx, r, every=every)
     ctx.extra['designs_coefficient_extracted'] = nd
     # 'cvmany': default folds with 11-12 repetitions (two-digit fold numbers), all label types
-    n = record_and_validate(ctx, PID, ['cv', 'cv', 'cv', 'cv', 'cvmany'], 2000 if thorough else 300)
+    modes = []
+    for lab in ('str', 'int', 'str', 'intneg'):     # (mixed-width strings: truncation would depend on the drawn labels)
+        modes += ['cv'] * 4 + [f'cvmany:{lab}']
+    n = record_and_validate(ctx, PID, modes, 2000 if thorough else 300)
     ctx.extra['recorded_executions_validated'] = n
